@@ -138,7 +138,32 @@ def contexts(pane):
         ('counter_count', lambda T, v: t.Counter[str], lambda v: {'k': v}, lambda r: r['k'], None),
         ('dc_field_with_default', lambda T, v: _dc_default(pane, T), lambda v: {'f': v}, lambda r: r.f, None),
         ('dc_position_after_noinit_field', lambda T, v: _dc_after_noinit(pane, T), lambda v: [v], lambda r: r.f, None),
+        # a condition that always holds restricts nothing - and lets nothing else in (None in particular)
+        ('annotated_true', lambda T, v: t.Annotated[T, _true_cond()], lambda v: v, lambda r: r, None),
+        ('annotated_true_in_list', lambda T, v: t.List[t.Annotated[T, _true_cond()]], lambda v: [v], lambda r: r[0], None),
+        # a class that carries a (stock) converter table for int: strictness of every other type is not its business
+        ('dc_field_class_custom_int', lambda T, v: _dc_custom(pane, T), lambda v: {'f': v}, lambda r: r.f, None),
     ]
+
+
+_TC: t.List[t.Any] = []
+
+
+def _true_cond():
+    if not _TC:
+        from pane.annotations import Condition
+        _TC.append(grammar.pin(Condition(lambda x: True, 'anything')))
+    return _TC[0]
+
+
+def _int_table():
+    """custom={int: <pane's own int converter>}: a handler table that changes nothing for int and concerns no other type."""
+    from pane.convert import make_converter
+    return {int: make_converter(int)}
+
+
+def _dc_custom(pane, T):
+    return grammar.pin(type('CtxCustom', (pane.PaneBase,), {'__annotations__': {'f': T}, '__module__': 'mc.generated'}, custom=_int_table()))
 
 
 def plan(tier, seed):
@@ -153,7 +178,7 @@ def build_target(ast):
     return grammar.build(ast)
 
 
-def eval_cell(pane, ctxs, di, ti, cpath, res):
+def eval_cell(pane, ctxs, di, ti, cpath, res, mode='plain'):
     """One cell: datum DATA[di], target TARGETS[ti], nested contexts cpath (outermost first)."""
     from pane.errors import ConvertError
     vkind, vexpr = DATA[di]
@@ -180,10 +205,10 @@ def eval_cell(pane, ctxs, di, ti, cpath, res):
     names = [ctxs[ci][0] for ci in cpath]
     in_union = any(n.startswith('union') for n in names)
     res['states'] += 1
-    cell = {'d': di, 't': ti, 'ctx': list(cpath)}
-    desc = f"from_data({values.expr(data)[:80]}, {grammar.render(ast)} in context {'/'.join(names)})"
+    cell = {'d': di, 't': ti, 'ctx': list(cpath), 'mode': mode}
+    desc = f"from_data({values.expr(data)[:80]}, {grammar.render(ast)} in context {'/'.join(names)}{', custom={int: <stock int converter>}' if mode != 'plain' else ''})"
     try:
-        out = pane.from_data(values.fresh(data), ty)
+        out = pane.from_data(values.fresh(data), ty) if mode == 'plain' else pane.from_data(values.fresh(data), ty, custom=_int_table())
         got = 'ok'
     except ConvertError:
         got = 'rej'
@@ -201,7 +226,7 @@ def eval_cell(pane, ctxs, di, ti, cpath, res):
     if names != ['top'] and vd in ('forbidden', 'widen'):
         res['nontrivial'].add(f"{vkind}|{grammar.render(ast)}|{'/'.join(names)}|{vd}")
     cost = len(cpath) * 10 + len(vexpr)
-    sig_base = {'vkind': vkind, 'target': grammar.render(ast), 'ctx': names[-1] if len(names) == 1 else '/'.join(names)}
+    sig_base = {'vkind': vkind, 'target': grammar.render(ast), 'ctx': names[-1] if len(names) == 1 else '/'.join(names), 'mode': mode}
     if vd == 'forbidden':
         if in_union and not names[-1].startswith('union'):
             # the union is an OUTER context: its own-kind member is that of the wrapped datum, which says nothing about v itself
@@ -268,12 +293,14 @@ def run_shard(shard, tier):
         paths += [(1, c) for c in range(1, len(ctxs))] + [(4, c) for c in range(1, len(ctxs))] + [(10, c) for c in (1, 2, 4, 7, 8)]
     for ti in range(len(TARGETS)):
         for p in paths:
-            try:
-                eval_cell(pane, ctxs, di, ti, p, res)
-            except Exception as e:  # noqa
-                core.add_violation(res, {'kind': 'oracle_exception', 'exc': type(e).__name__},
-                                   f"cell d={di} t={ti} ctx={p} raised {type(e).__name__}: {core.sstr(e)}",
-                                   {'d': di, 't': ti, 'ctx': list(p)}, 5)
+            # 'custom': the same call with custom={int: stock int converter} (single contexts, and inside list / dict value)
+            for mode in (('plain', 'custom') if len(p) == 1 or p[0] in (1, 4) and tier == 'thorough' else ('plain',)):
+                try:
+                    eval_cell(pane, ctxs, di, ti, p, res, mode)
+                except Exception as e:  # noqa
+                    core.add_violation(res, {'kind': 'oracle_exception', 'exc': type(e).__name__},
+                                       f"cell d={di} t={ti} ctx={p} mode={mode} raised {type(e).__name__}: {core.sstr(e)}",
+                                       {'d': di, 't': ti, 'ctx': list(p), 'mode': mode}, 5)
     if di == 0:
         res['samples'].append({'datum': DATA[16][1], 'target': 'int', 'context': 'dict_value',
                                'cell': "from_data({'k': '12'}, Dict[str, int]) must raise ConvertError"})
@@ -284,5 +311,5 @@ def replay(cell):
     pane = core.import_pane()
     warnings.simplefilter('ignore')
     res = core.new_result()
-    eval_cell(pane, contexts(pane), cell['d'], cell['t'], tuple(cell['ctx']), res)
+    eval_cell(pane, contexts(pane), cell['d'], cell['t'], tuple(cell['ctx']), res, cell.get('mode', 'plain'))
     return [v for lst in res['violations'].values() for v in lst]
